@@ -42,11 +42,13 @@ func init() {
 	core.Register(&core.Check{
 		ID:    prop,
 		Level: "exploration",
-		Rule: "2 charts x 2 generated keys (RSA-2048, ECDSA-P256; fixed-seed generation) signed through Signatory.ClearSign; per (chart,key) pair: every single-bit flip and every " +
-			"truncation length of the provenance file and of the archive, renamed archives, missing provenance, every other pair's provenance and every text/armor splice, " +
-			"a grid of messages validly signed by the trusted key (name key x digest value x second entry, plus repeated entries), each under the keyrings " +
-			"{signer, other+signer, other only, empty}; every case through 5 entry points. distinct = (family, pair, mutation position or grid cell, keyring); " +
-			"every case differs from the signed original in at least one byte, name or key except the 'baseline' family",
+		Rule: "2 charts x 2 generated keys (RSA-2048, ECDSA-P256; fixed-seed generation) signed through Signatory.ClearSign. Per (chart,key) pair, structured families: " +
+			"unmodified (ClearSign output and time-pinned re-signature), missing provenance, 5 renamed/moved archives, every other pair's provenance (also with the archive renamed to match), " +
+			"text/armor splices, a grid of messages validly signed by the trusted key (8 name keys x 12 digest values x 3 second entries) and 7 repeated-entry messages, " +
+			"under the keyrings {signer, other+signer, other only, empty}, through 5 entry points. Positional families: every single-bit flip and every truncation length of the " +
+			"provenance file and of the archive (quick: keyring other+signer, Signatory.Verify/VerifyChart/DownloadTo; thorough: all 4 keyrings x 5 entry points, plus every " +
+			"byte of the provenance replaced by each of the 255 other values and every single byte deleted). distinct = (family, pair, mutation position or grid cell, keyring); " +
+			"every case differs from the signed original in at least one byte, name or key, except the families baseline and real-clearsign",
 		Run:    run,
 		Replay: replay,
 		Assumptions: []string{
